@@ -1217,6 +1217,12 @@ class FnTr:
                 if v.typ == 'List R':
                     return Val(f'(GV.Py.sumR {v.text})', 'R')
                 raise Unsupported(f'sum() of {v.typ}')
+            if f.id == 'list' and len(e.args) == 1 and not (isinstance(e.args[0], ast.Call) and isinstance(e.args[0].func, ast.Name)
+                                                        and e.args[0].func.id == 'zip'):
+                v = self.expr(e.args[0])
+                if v.typ.startswith('List '):
+                    return v                                     # `list(xs)` of a list: a list is a value here
+                raise Unsupported(f'list() of {v.typ}')
             if f.id == 'list' and len(e.args) == 1 and isinstance(e.args[0], ast.Call) and isinstance(e.args[0].func, ast.Name) \
                     and e.args[0].func.id == 'zip' and len(e.args[0].args) == 1 and isinstance(e.args[0].args[0], ast.Starred):
                 v = self.expr(e.args[0].args[0].value)          # `list(zip(*pairs))`: the two columns
